@@ -884,8 +884,100 @@ def rule_T3(ctx):
         ctx.ok("uc_end", "continuation scan ends where the lead byte says, %d inputs" % cnt)
 
 
+def rule_L5(ctx):
+    """The literal fast path and the regex engine are siblings behind one interface: for the
+    anchors the classifier strips (\\< \\> ^ $) the fast path's accept/reject decision at every
+    candidate offset must equal what the engine's own atoms (ratom_match on RA_WBEG / RA_WEND)
+    say there.  Both are pure functions of (line, offset); they are evaluated abstractly over
+    every line of length <= 3 (+ newline) of a word / non-word / blank alphabet."""
+    ctx.begin("L5", floor=1, what="fast-path anchors agree with the engine's atoms")
+    prog = ctx.prog
+    f = prog.func("rstr_find", file="rstr.c")
+    am = prog.func("ratom_match", file="regex.c")
+    rec = prog.record("rstr")
+    # the atom kinds the parser assigns to \\< and \\>
+    kinds = {}
+    seen = {cval(n["r"]) for n in am.walk() if n["k"] == "bin" and n["op"] == "==" and
+            n["l"]["k"] == "member" and n["l"]["field"] == "ra" and cval(n["r"]) is not None}
+    for g in prog.funcs.values():
+        if g.file != "regex.c":
+            continue
+        for n, lv, op, rhs in stores(g.body):
+            r = strip_casts(rhs) if rhs is not None else None
+            if lv["k"] == "member" and lv["field"] == "ra" and r is not None and r["k"] == "cond":
+                c = strip_casts(r["c"])
+                if c["k"] == "bin" and c["op"] in ("==", "!=") and cval(c["r"]) in (0x3c, 0x3e) \
+                        and cval(r["t"]) is not None and cval(r["f"]) is not None:
+                    first = "RA_WBEG" if (cval(c["r"]) == 0x3c) == (c["op"] == "==") else "RA_WEND"
+                    other = "RA_WEND" if first == "RA_WBEG" else "RA_WBEG"
+                    kinds[first], kinds[other] = cval(r["t"]), cval(r["f"])
+    if not kinds and {0x3c, 0x3e} <= seen:
+        kinds = {"RA_WBEG": 0x3c, "RA_WEND": 0x3e}
+    if "RA_WBEG" not in kinds or "RA_WEND" not in kinds or not {kinds["RA_WBEG"], kinds["RA_WEND"]} <= seen:
+        raise AnalysisBroken("regex.c: the atom kinds of \\< and \\> were not found")
+
+    def engine(kind, line, p):
+        sp = Ptr(line)
+        rs = {"s": Ptr(line, p, sp.log), "o": sp, "flg": 0, "pc": 0, "dep": 0}
+        try:
+            return Interp(prog).call(am, [{"ra": kinds[kind], "s": None}, rs]) == 0
+        except (Unsupported, OverRead) as e:
+            raise AnalysisBroken("ratom_match not evaluable: %s" % e)
+
+    alpha = [0x61, 0x2d, 0x20]
+    lits = [(0x61,), (0x2d,), (0x2d, 0x61), (0x61, 0x2d), (0x61, 0x61)]
+    n_eval = 0
+    bad = None
+    for L in range(0, 4):
+        for combo in itertools.product(alpha, repeat=L):
+            line = tuple(combo) + (0x0a, 0)
+            slen = len(line) - 1
+            for lit in lits:
+                for wbeg, wend in ((1, 0), (0, 1), (1, 1), (0, 0)):
+                    # reference: first offset where the literal stands and the engine's atoms accept
+                    want = -1
+                    for p in range(0, slen - len(lit)):
+                        if line[p:p + len(lit)] != lit:
+                            continue
+                        if wbeg and not engine("RA_WBEG", line, p):
+                            continue
+                        if wend and not engine("RA_WEND", line, p + len(lit)):
+                            continue
+                        want = p
+                        break
+                    rs = {fl["name"]: 0 for fl in rec["fields"]}
+                    rs["rs"] = None
+                    rs["str"] = Ptr(lit + (0,))
+                    rs["wbeg"], rs["wend"] = wbeg, wend
+                    grps = {}
+                    try:
+                        ret = Interp(prog).call(f, [rs, Ptr(line), 1, grps, 0])
+                    except (Unsupported, OverRead) as e:
+                        raise AnalysisBroken("rstr_find not evaluable: %s" % e)
+                    n_eval += 1
+                    got = grps.get(0, -1) if (ret is not None and ret >= 0) else -1
+                    if got != want and bad is None:
+                        bad = (lit, line, wbeg, wend, got, want)
+    if n_eval < 200:
+        raise AnalysisBroken("only %d evaluations" % n_eval)
+    if bad:
+        lit, line, wbeg, wend, got, want = bad
+        sh = lambda b: "".join(chr(x) if 32 <= x < 127 else "\\x%02x" % x for x in b)
+        ctx.violation("rstr_find", "word anchors agree with the regex engine",
+                      "pattern %s%s%s on the line \"%s\": the literal matcher %s but the engine's "
+                      "\\< / \\> atoms %s" % (
+                          "\\<" if wbeg else "", sh(lit), "\\>" if wend else "", sh(line[:-2]),
+                          "matches at %d" % got if got >= 0 else "finds nothing",
+                          "accept first at %d" % want if want >= 0 else "reject every offset"),
+                      f.loc(f.body))
+    else:
+        ctx.ok("rstr_find", "same first accepted offset as ratom_match's RA_WBEG/RA_WEND on %d "
+               "(literal, anchors, line) cases: all lines of length <= 3 over {word, '-', blank}" % n_eval)
+
+
+
 RULES = {"R4": rule_R4, "R5": rule_R5, "R6": rule_R6, "L1": rule_L1, "L2": rule_L2, "L3": rule_L3,
-         "L4": rule_L4, "M1": rule_M1, "M2": rule_M2, "T1": rule_T1, "T2": rule_T2, "T3": rule_T3}
+         "L4": rule_L4, "L5": rule_L5, "M1": rule_M1, "M2": rule_M2, "T1": rule_T1, "T2": rule_T2, "T3": rule_T3}
 
 
 # ----------------------------------------------------------------------------------------
